@@ -3,23 +3,42 @@ MIR_NOTE = ('Bounded symbolic execution, not a proof. Trusted: rustc nightly MIR
             'the OpenMLS/storage environment contracts listed in the evidence, z3. Callee results are nondeterministic; loops and symbolic lists are '
             'unrolled to the stated bounds with an unwinding check (a path hitting the bound makes the check BROKEN, not passing).')
 ENGINES = [
-    dict(name='sqlsym', path='/verif/sqlsym', serves_properties=['C09', 'C10', 'C12', 'C16', 'C20'],
+    dict(name='sqlsym', path='/verif/sqlsym', serves_properties=['C06', 'C08', 'C09', 'C10', 'C12', 'C16', 'C17', 'C18', 'C20'],
          kind_free_text='E4: SQL programs of the SQLite backend (extracted from the sources with the schema of migrations/*.sql) as relational SMT over symbolic rows, decided by z3'),
-    dict(name='mirsym', path='/verif/mirsym', serves_properties=['C01', 'C02', 'C04', 'C05', 'C07', 'C08', 'C11', 'C16', 'C20'],
+    dict(name='mirsym', path='/verif/mirsym', serves_properties=['C01', 'C02', 'C04', 'C05', 'C06', 'C07', 'C08', 'C09', 'C10', 'C11', 'C15', 'C16', 'C17', 'C18', 'C20'],
          kind_free_text='E3/E3c: symbolic execution (z3) of the textual MIR of the repository crates, regenerated from the working tree on every run'),
-    dict(name='kani-direct', path='/verif/kani/direct', serves_properties=['C18'],
+    dict(name='kani-direct', path='/verif/kani/direct', serves_properties=['C18', 'C15'],
          kind_free_text='E1: Kani 0.68 / CBMC 6.11 harnesses (kani::any inputs, unwind bounds, cover! vacuity witnesses) over the compiled real code'),
 ]
 NOTES = ('Solver-based checking of the real code: CBMC via Kani over compiled Rust; z3 over encodings regenerated on every run from the '
          "repository's MIR and SQL. Every claim is bounded; see DESIGN.md. Exit 2 = broken/inconclusive machinery, never a VIOLATION.")
 PENDING = 'check not built yet in this revision of /verif (work in progress; see DESIGN.md section 5 for the planned obligations)'
 CHECKS = [
+    dict(id='C06', engine='mirsym', design_ref='DESIGN.md section 5, C06',
+         technique='symbolic execution of the compiler MIR with z3: panic-freedom of every parser of untrusted bytes over symbolic buffers (lengths as symbolic variables), effect-freedom of refusing paths by trace assertions',
+         text='Every path of the parsers of untrusted input (extension TLV readers, tag/imeta parsers, snapshot-name and ciphersuite/extension tag validators, content decoders; list in the evidence) is explored with '
+              'symbolic lengths and contents and z3 shows no panic (index, slice, split_at, arithmetic overflow, unwrap) is reachable; every refusing path of process_message is shown to perform no '
+              'state-changing call except the failure record; the memory pagination arithmetic cannot overflow; refused welcomes leave no state (shared with C16).',
+         note=MIR_NOTE + ' Bounds: lists/tags <= 3 elements, slices modelled with symbolic length and may-panic index models. Not covered: panics inside OpenMLS / nostr / serde (library code is an uninterpreted call), allocation failure, stack exhaustion.'),
+    dict(id='C15', engine='mirsym', design_ref='DESIGN.md section 5, C15',
+         technique='symbolic execution of the compiler MIR with z3 and codec contract models (serialise/deserialise as inverse uninterpreted pairs); Kani/CBMC round trip of the raw extension in the thorough tier',
+         text='Along the real from_raw/to_raw, deserialize_bytes and key-package tag code, z3 shows field-for-field round trip of the group-data extension (every field of the decoded value equals the '
+              'field that was encoded, version included), strictness (wrong version, wrong fixed lengths, trailing bytes and invalid UTF-8/relay/pubkey are refused on every path), and that a key-package '
+              'event is accepted only if its i tag equals the KeyPackageRef computed from the content.',
+         note=MIR_NOTE + ' The TLS byte layout of tls_codec-derived impls is a contract (decode(encode(x)) == x and encode(decode(b)) == b for accepted b), not executed; the hand-written length checks and field '
+              'conversions are executed. Thorough tier adds a CBMC round trip of the optional image fields with concrete sizes.'),
+    dict(id='C17', engine='mirsym', design_ref='DESIGN.md section 5, C17',
+         technique='SMT (z3 sequence theory) over the byte-string builders taken from the MIR of the media key-derivation code; symbolic execution of sender/receiver dataflow; SMT on the SQL secret lookup',
+         text='z3 shows the HKDF context and AEAD associated data built by the real code are injective in (version, file hash, canonical MIME type, file name) given the 0x00 separators and the canonicalisation '
+              'the code applies (so two different files/contexts never share a key or AAD by construction), that the sender and receiver derive from the same fields the imeta tag carries, and that the '
+              'exporter-secret lookup is keyed by (group, epoch) exactly.',
+         note=MIR_NOTE + ' Not covered: HKDF/ChaCha20-Poly1305 themselves (cryptographic assumptions), MLS exporter separation between epochs (OpenMLS), nonce randomness (OS RNG).'),
     dict(id='C10', engine='sqlsym', design_ref='DESIGN.md section 5, C10',
          technique='SMT equivalence (z3) between SQL extracted from the SQLite backend (ORDER BY, LIMIT/OFFSET parameter casts, WHERE predicates) and the reference model of the storage contract, for all 64-bit values',
          text='z3 shows, for all rows and parameters, that the ORDER BY clauses equal the documented total orders, that LIMIT/OFFSET with the Rust-side casts equals slice pagination for every limit '
               'and usize offset, that the invalidation / retry / pending-welcome predicates select exactly the contract\'s records (NULL epochs included), and cross-checks upsert column coverage against the migrations.',
          note='Partial: the places where the two backends implement the same function twice. Timestamps < 2^63 (above that rusqlite refuses the value). Column coverage is a catalogue cross-check. '
-              'A differential run over arbitrary operation sequences needs the real SQLite engine and is not claimed. Memory-side kernels are E3c obligations (listed in the evidence when built).'),
+              'A differential run over arbitrary operation sequences needs the real SQLite engine and is not claimed. Memory-side kernels (listing/pagination, invalidation, rollback with routing index: O5-O7) are mirsym obligations over the real mdk-memory-storage MIR with <= 2 records.'),
     dict(id='C11', engine='mirsym', design_ref='DESIGN.md section 5, C11',
          technique='symbolic execution of the compiler MIR with container models: pre-restart vs hydrated snapshot manager compared on symbolic queries by z3',
          text='A manager re-created over the same persistent stub storage is hydrated through the real ensure_hydrated/parse_snapshot_name MIR and compared with the original on every symbolic '
@@ -37,7 +56,7 @@ CHECKS = [
               'with exactly the snapshot rows and that the snapshot is consumed; column coverage of snapshot/restore is cross-checked against the migrations; snapshot, release '
               'and prune are shown to touch only the snapshot table.',
          note='Bounded: 2 candidate rows per table, target group vs other, target snapshot name vs other. Assumes the group existed at snapshot time and SQLite enforces the declared '
-              'foreign keys. Column-level fidelity is a catalogue cross-check, not a solver query. The memory backend half (E3c) is listed in the evidence when built; until then C09 is claimed for the SQLite backend.'),
+              'foreign keys. Column-level fidelity is a catalogue cross-check, not a solver query. The memory backend half (O4) drives the real snapshot/rollback MIR of mdk-memory-storage over container models (<= 2 groups, <= 2 records per map).'),
     dict(id='C12', engine='sqlsym', design_ref='DESIGN.md section 5, C12',
          technique='SMT (z3) over the extracted SQL statement lists with a symbolic crash index and SQLite transaction/savepoint semantics',
          text='For snapshot creation, rollback and relay replacement z3 shows that for every crash point (symbolic statement index) the persisted effects are all or none, i.e. every '
@@ -59,7 +78,7 @@ CHECKS = [
          technique='symbolic execution of the compiler MIR with z3: dataflow equality of symbolic terms between MLS state/extension and the saved record',
          text='Every merging function re-synchronises the stored record on every successful path; sync_group_metadata_from_mls is shown to copy each mirrored field '
               '(epoch, name, description, image fields, admins, Nostr group id) from the MLS group of that id and to replace the relay set, writing nothing if the extension fails to parse.',
-         note=MIR_NOTE + ' Routing-index obligations on the storage backends (O3/O4) belong to the storage engines.'),
+         note=MIR_NOTE + ' O3-O5 are the storage-side obligations shared with C09/C10 (memory routing index after rollback; SQLite column coverage of restore and upsert).'),
     dict(id='C16', engine='mirsym', design_ref='DESIGN.md section 5, C16',
          technique='symbolic execution of the compiler MIR with z3: write-freedom of dedup/refusal paths, dominance of the active-group guard; native replay on real OpenMLS groups',
          text='Every path of process_welcome / preview_welcome / accept_welcome / decline_welcome is enumerated: dedup and refusal paths are write-free (except the failed-welcome record), '
@@ -89,12 +108,11 @@ CHECKS = [
          text='CBMC decides, for all 64-bit timestamps and 32-byte ids, that the two listing comparators are strict total orders equal to the '
               'documented lexicographic order, and that the last-message pointer update is max-in-display-order.',
          note='Bounded: unwind 34 (memcmp of 32-byte ids). Trusted: Kani/CBMC, the 3-line harness-side reference comparator. '
-              'Pagination/listing on the backends and the invalidated-message clause are not covered by this revision.'),
+              'O3 (memory listing, mirsym, <= 2 stored messages) and O4/O5 (SQLite ORDER BY / pagination, sqlsym) extend it to the backends; the invalidated-message clause is C10-O3/O6.'),
 ]
 NOT_APPLICABLE = [
     dict(property_id='C03', reason='confidentiality/membership semantics live in OpenMLS and NIP-44 cryptography; not expressible as a bounded safety query over MDK code'),
     dict(property_id='C13', reason='SQLCipher page encryption, file modes and keyring behaviour are C/OS code behind FFI; nothing a solver can execute'),
     dict(property_id='C14', reason='needs core::fmt executed on every path or a taint analysis; formatting is what this family stubs out'),
     dict(property_id='C19', reason='thread interleavings: Kani sequentialises atomics and rejects thread::spawn; parking_lot crashes the Kani compiler; no concurrency engine in this family here'),
-] + [dict(property_id=p, reason=PENDING) for p in
-     ['C06', 'C15', 'C17']]
+]
